@@ -3,7 +3,7 @@
 import ast
 
 from py2lean_types import (Unsupported, Impure, TInt, TBool, TStr, TNone, TRange, TErased, TList, TOpt, TTuple,
-                           TDict, TObj, TAbs, TExc, TUnion, TVar, TMaybe, TBuilder, INT, BOOL, STR, NONE, RANGE, ERASED,
+                           TDict, TObj, TAbs, TExc, TUnion, TVar, TMaybe, TBuilder, TEffect, INT, BOOL, STR, NONE, RANGE, ERASED,
                            resolve, unify, join, coerce, proj, iter_elem)
 from py2lean_expr import src, indent, EXC, TyRef
 
@@ -18,6 +18,17 @@ def splice(code, key, text):
         else:
             out.append(line.replace(key, text))
     return "\n".join(out)
+
+
+def assigned_call_receivers(stmts):
+    """receivers of `x = obj.method(…)`: obj may be an effect object whose state the call changes"""
+    out = []
+    for s in stmts:
+        for n in ast.walk(s):
+            if isinstance(n, ast.Assign) and isinstance(n.value, ast.Call) and isinstance(n.value.func, ast.Attribute) \
+                    and isinstance(n.value.func.value, (ast.Name, ast.Attribute)):
+                out.append(n.value.func.value)
+    return out
 
 
 def assigned_names(stmts):
@@ -39,6 +50,7 @@ def assigned_names(stmts):
             if isinstance(n, ast.Assign):
                 for t in n.targets:
                     tgt(t)
+
             elif isinstance(n, (ast.AugAssign, ast.AnnAssign)):
                 tgt(n.target)
             elif isinstance(n, ast.For):
@@ -46,7 +58,7 @@ def assigned_names(stmts):
             elif isinstance(n, ast.Expr) and isinstance(n.value, ast.Yield):
                 out.append("«yield»")
             elif isinstance(n, ast.Expr) and isinstance(n.value, ast.Call) and isinstance(n.value.func, ast.Attribute) \
-                    and isinstance(n.value.func.value, (ast.Name, ast.Attribute)):
+                    and isinstance(n.value.func.value, (ast.Name, ast.Attribute, ast.Subscript)):
                 # a method call as a statement may change its receiver (append, pop, a command of an effect object):
                 # the receiver is carried through loops and joins (an over-approximation is harmless)
                 tgt(n.value.func.value)
@@ -78,6 +90,11 @@ class StmtMixin:
             raise Unsupported("statement " + type(s).__name__ + ": " + src(s).split("\n")[0])
         return m(s, env, lambda env2: self.block(rest, env2, fall))
 
+    def s_Continue(self, s, env, nxt):
+        if not self.loop_falls:
+            raise Unsupported("continue outside a for loop")
+        return self.loop_falls[-1](env)
+
     def s_Pass(self, s, env, nxt):
         return nxt(env)
 
@@ -91,7 +108,10 @@ class StmtMixin:
                 return self.finish_return(*env["self"])
             return self.finish_return("()", NONE)
         if self.effect_self:
-            raise Unsupported("a procedure on an effect object returning a value")
+            if not isinstance(resolve(env["self"][1]), TEffect):
+                raise Unsupported("a procedure on an effect object returning a value")
+            sc, st = env["self"]
+            return self.expr(s.value, env, lambda c, t: self.finish_return("({}, {})".format(c, sc), TTuple([t, st])))
         return self.expr(s.value, env, self.finish_return)
 
     def finish_return(self, c, t):
@@ -118,6 +138,13 @@ class StmtMixin:
         v = s.value
         if isinstance(v, ast.Constant):          # docstring
             return nxt(env)
+        if isinstance(v, ast.Call) and isinstance(v.func, ast.Name) and v.func.id in EXC:
+            return nxt(env)                      # an exception object that is built and dropped (no `raise`)
+        if isinstance(v, ast.Call) and isinstance(v.func, ast.Attribute) and isinstance(v.func.value, ast.Attribute) \
+                and src(v.func.value.value) == "self" and v.func.value.attr in self.erased_attrs:
+            return nxt(env)                      # bookkeeping on an attribute the translation erases
+        if self.effect_call_parts(v, env) is not None and not (self.effect_self and isinstance(resolve(env["self"][1]), TBuilder)):
+            return self.effect_stmt(v, None, env, nxt)
         if isinstance(v, ast.Yield) and v.value is not None and "«yield»" in env:
             # generator function: the yielded values are collected in order (laziness is not modelled)
             nm, t = env["«yield»"]
@@ -153,6 +180,38 @@ class StmtMixin:
                     env2[key] = (nm2, TList(j))
                     return "let {} := {} ++ [{}]\n{}".format(nm2, coerce(nm, t, TList(j)), coerce(c, tc, j), nxt(env2))
                 return self.expr(v.args[0], env, fin)
+            if f.attr == "append" and isinstance(f.value, ast.Subscript) and not isinstance(f.value.slice, ast.Slice) \
+                    and isinstance(f.value.value, ast.Name) and f.value.value.id in env and len(v.args) == 1:
+                # rows[i].append(x): the row is looked up (IndexError, negative indices), then the argument is
+                # evaluated, then the entry is replaced — sound because the rows are distinct objects
+                rkey = f.value.value.id
+                nm, t = env[rkey]
+                t = resolve(t)
+                if rkey not in self.fresh_rows or not isinstance(t, TList) or not isinstance(resolve(t.elem), TList):
+                    raise Unsupported("append to an entry of a list whose rows are not known to be distinct objects")
+                self.check_mutable(rkey)
+                trow = resolve(t.elem)
+
+                def fin_i(ic, it):
+                    def with_i(iv):
+                        def with_row(row, _t):
+                            def fin_v(c, tc):
+                                unify(trow.elem, tc) if isinstance(resolve(trow.elem), TVar) else None
+                                j = join(trow.elem, tc)
+                                if j is None or j != resolve(trow.elem):
+                                    raise Unsupported("append of {} to a row of {}".format(resolve(tc).lean(), t.lean()))
+                                nm2 = self.lname(rkey)
+
+                                def after(l, _tl):
+                                    env2 = dict(env)
+                                    env2[rkey] = (l, t)
+                                    return nxt(env2)
+                                return self.bind("Py.listSet {} {} ({} ++ [{}])".format(nm, iv, row, coerce(c, tc, j)),
+                                                 t, after, "l")
+                            return self.expr(v.args[0], env, fin_v)
+                        return self.bind("Py.index {} {}".format(nm, iv), trow, with_row, "row")
+                    return self.as_int(ic, it, with_i)
+                return self.expr(f.value.slice, env, fin_i)
             if f.attr == "pop" and key in env and not v.args:
                 return self.pop_stmt(key, None, env, nxt)
             if key in env and isinstance(resolve(env[key][1]), TBuilder) and resolve(env[key][1]).cmd == f.attr \
@@ -248,6 +307,16 @@ class StmtMixin:
             out.append((ob, None, None))
         return out
 
+    def mark_aliases(self, target, ty):
+        """names bound to a mutable value that lives inside another object: mutating them is outside the subset"""
+        ty = resolve(ty)
+        if isinstance(target, ast.Name):
+            if isinstance(ty, (TList, TDict)):
+                self.aliased.add(target.id)
+        elif isinstance(target, (ast.Tuple, ast.List)) and isinstance(ty, TTuple) and len(ty.elems) == len(target.elts):
+            for tg, te in zip(target.elts, ty.elems):
+                self.mark_aliases(tg, te)
+
     def check_mutable(self, key):
         if key in self.aliased:
             raise Unsupported("mutation of {} after it was aliased".format(key))
@@ -311,10 +380,30 @@ class StmtMixin:
             raise Unsupported("chained assignment")
         target = s.targets[0]
         v = s.value
+        if isinstance(target, ast.Name) and target.id in self.erased_locals:
+            # a display text (declared in the specs): never evaluated
+            env2, _ = self.assign_target(target, "()", ERASED, env)
+            return nxt(env2)
+        # effect objects: creation, another name for the same object, a method call with a result
+        new = self.effect_new(v, env)
+        if new is not None and isinstance(target, ast.Name):
+            env2 = dict(env)
+            nm = self.lname(target.id)
+            env2[target.id] = (nm, new[1])
+            return "let {} := {}\n{}".format(nm, new[0], nxt(env2))
+        if isinstance(target, ast.Name) and isinstance(v, (ast.Name, ast.Attribute)) and self.effect_key(v, env) is not None:
+            self.effect_alias[target.id] = self.effect_key(v, env)
+            return nxt(env)
+        if self.effect_call_parts(v, env) is not None and not (self.effect_self and isinstance(resolve(env["self"][1]), TBuilder)):
+            return self.effect_stmt(v, target, env, nxt)
         # x = lst.pop()
         if isinstance(v, ast.Call) and isinstance(v.func, ast.Attribute) and v.func.attr == "pop" \
                 and not v.args and src(v.func.value) in env:
             return self.pop_stmt(src(v.func.value), target, env, nxt)
+        # `F.header['description'] = …` : a display text on the formula object
+        if isinstance(target, ast.Subscript) and isinstance(target.value, ast.Attribute) and target.value.attr == "header" \
+                and self.effect_key(target.value.value, env) is not None:
+            return nxt(env)
         # d[k] = v on a dictionary
         if isinstance(target, ast.Subscript) and src(target.value) in env:
             key = src(target.value)
@@ -377,6 +466,14 @@ class StmtMixin:
         if isinstance(vnode, (ast.Name, ast.Attribute)) and isinstance(resolve(t), (TList, TDict)):
             self.aliased.add(src(vnode))
             self.aliased.add(src(target))
+        if isinstance(vnode, ast.Subscript) and not isinstance(vnode.slice, ast.Slice):
+            self.mark_aliases(target, t)      # `row = rows[i]`: an alias of the entry
+        if isinstance(target, ast.Name):
+            # rows created by `[[…] for … in …]` are distinct objects: `rows[i].append(x)` changes one entry
+            if isinstance(vnode, ast.ListComp) and isinstance(vnode.elt, (ast.List, ast.ListComp)):
+                self.fresh_rows.add(target.id)
+            else:
+                self.fresh_rows.discard(target.id)
         if isinstance(target, (ast.Tuple, ast.List)) and not (c.replace("_", "a").replace("'", "a").isalnum()):
             tmp = self.fresh("p")
             env2, lets = self.assign_target(target, tmp, t, env)
@@ -467,8 +564,35 @@ class StmtMixin:
         return "let {} := ({})\n{}".format(st, code, tail)
 
     # ------------------------------------------------------------ if
+    def canon_names(self, names, env, stmts=()):
+        names = list(names)
+        for r in assigned_call_receivers(stmts):
+            key = self.effect_key(r, env)
+            if key is not None and key not in names:
+                names.append(key)
+        out = []
+        for n in names:
+            if n in self.effect_alias:
+                n = self.effect_alias[n]
+            if n.startswith("self.") and n[5:] in self.self_aliases:
+                n = "self"
+            if n not in out:
+                out.append(n)
+        return out
+
     def s_If(self, s, env, nxt):
-        names = assigned_names(s.body + s.orelse)
+        names = self.canon_names(assigned_names(s.body + s.orelse), env, s.body + s.orelse)
+        # a test decided by the declared types (isinstance on an object of known class): only the live branch exists
+        try:
+            p0 = self.pure_prop(s.test, env)
+        except (Impure, Unsupported):
+            p0 = None
+        if p0 is not None:
+            p0 = p0.replace("(¬ True)", "False").replace("(¬ False)", "True")
+            if p0 == "True":
+                return self.block(s.body, env, nxt)
+            if p0 == "False":
+                return self.block(s.orelse, env, nxt)
         # label plumbing: an `if` that only assigns erased variables is skipped (its test must be pure)
         if names and all(n in env and isinstance(env[n][1], TErased) for n in names) and self.only_assigns(s):
             return nxt(env)
@@ -506,9 +630,9 @@ class StmtMixin:
         if s.orelse:
             raise Unsupported("for … else")
         for n in ast.walk(s):
-            if isinstance(n, (ast.Return, ast.Break, ast.Continue)):
-                raise Unsupported("return / break / continue inside a loop")
-        state = [n for n in assigned_names(s.body) if n in env]
+            if isinstance(n, (ast.Return, ast.Break)):
+                raise Unsupported("return / break inside a loop")
+        state = [n for n in self.canon_names(assigned_names(s.body), env, s.body) if n in env]
         for n in state:
             self.check_mutable(n) if isinstance(resolve(env[n][1]), (TList, TDict)) else None
 
@@ -528,8 +652,21 @@ class StmtMixin:
             env_in[n] = (nm, t)
             if len(keep) > 1:
                 lets.append("let {} := {}".format(nm, proj(st, i, len(keep))))
-        env_in, tl = self.bind_target(s.target, x, el, env_in)
+        unpack = None
+        rel = resolve(el)
+        if isinstance(s.target, (ast.Tuple, ast.List)) and isinstance(rel, TList) and len(s.target.elts) in (2, 3):
+            # `for a, b, c in <list of lists>`: exactly that many entries, else ValueError
+            k = len(s.target.elts)
+            pv = self.fresh("p")
+            unpack = "(Py.unpack{} {}) >>= fun {} =>\n".format(k, x, pv)
+            self.raised += 1
+            env_in, tl = self.bind_target(s.target, pv, TTuple([rel.elem] * k), env_in)
+        else:
+            env_in, tl = self.bind_target(s.target, x, el, env_in)
+        self.mark_aliases(s.target, el)
         lets += tl
+        if unpack is not None:
+            lets = [l for l in lets if l not in tl]
         falls = []
 
         def fall(env_b):
@@ -538,7 +675,11 @@ class StmtMixin:
             return key
         before = self.raised
         saved_ret = len(self.returns)
-        body = self.block(s.body, env_in, fall)
+        self.loop_falls.append(fall)          # `continue`: the end of this iteration, with the state at that point
+        try:
+            body = self.block(s.body, env_in, fall)
+        finally:
+            self.loop_falls.pop()
         monadic_loop = self.raised > before
         # loop-invariant types
         new_tys = []
@@ -559,6 +700,8 @@ class StmtMixin:
             body = body.replace(key, "Except.ok {}".format(tup) if monadic_loop else tup)
         st_ty = TTuple(tys).lean() if len(tys) != 1 else resolve(tys[0]).lean()
         init = tuple_code([coerce(env[n][0], env[n][1], t) for n, t in zip(keep, tys)])
+        if unpack is not None:
+            body = unpack + "".join(l + "\n" for l in tl) + body
         fn = "(fun ({} : {}) ({} : {}) =>\n{})".format(st, st_ty, x, resolve(el).lean(),
                                                        indent("".join(l + "\n" for l in lets) + body))
         env2 = dict(env)
@@ -580,6 +723,10 @@ class StmtMixin:
     def s_Try(self, s, env, nxt):
         """two idioms:  try: <abstract call> except K: raise E  (the outcome of the abstract call is an input);
         try: return d[k] except KeyError: pass  (dictionary lookup with fall-through)"""
+        if not s.orelse and not s.finalbody and s.handlers and all(self.reraises_same(h) for h in s.handlers):
+            # try: body  except E [as e]: raise E(message) [from e]   — the same exception class with another message:
+            # transparent at the level of exception classes
+            return self.block(s.body, env, nxt)
         if s.orelse or s.finalbody or len(s.handlers) != 1 or len(s.body) != 1:
             raise Unsupported("try statement outside the idiom")
         h = s.handlers[0]
@@ -612,10 +759,27 @@ class StmtMixin:
             else:
                 consts = None
                 break
+        if consts is None and len(call.args) == 1 and isinstance(call.args[0], ast.Starred) \
+                and isinstance(call.args[0].value, ast.Name):
+            consts = ("star", call.args[0].value.id)        # format(*seq): only the length of seq matters
         ob = self.observer_param("format", recv, consts)
         handler = self.block(h.body, env, lambda e: self.unsup_fall())
         self.raised += 1
         return "Py.tryExcept {} Err{} ({}) (fun _ =>\n{})".format(ob, EXC[h.type.id], handler, indent(nxt(env)))
+
+    @staticmethod
+    def reraises_same(h):
+        if not (isinstance(h.type, ast.Name) and h.type.id in EXC and len(h.body) == 1 and isinstance(h.body[0], ast.Raise)):
+            return False
+        r = h.body[0]
+        exc = r.exc
+        if isinstance(exc, ast.Call):
+            if any(not isinstance(a, (ast.Constant, ast.Name)) for a in exc.args) or exc.keywords:
+                return False
+            exc = exc.func
+        if not (isinstance(exc, ast.Name) and exc.id == h.type.id):
+            return False
+        return r.cause is None or (isinstance(r.cause, ast.Name) and r.cause.id == h.name)
 
     def unsup_fall(self):
         raise Unsupported("exception handler that falls through")
